@@ -350,6 +350,17 @@ class Roots:
                     if len(ex) == 1:
                         some = ("agg", "adt", "std::option::Option::Some", ((0, ex[0][3]),))
                         return self.with_captures(v[4][1]).roots(phi([none, some]), path)
+            if re.search(r"option::Option(::<[^>]*>)?::map_or(_else)?$", cs) and len(v[4]) == 3 and v[4][2][0] == "const" and v[4][2][1] == "fn":
+                # opt.map_or_else(|| d, Addr::unchecked): the mapping function given by name
+                payload = proj(proj(v[4][0], ("v", "Some")), ("f", 0))
+                some_r = self.roots(("call", v[1], v[2], v[4][2][2], (payload,)), ())
+                dflt = v[4][1]
+                if cs.endswith("map_or_else"):
+                    d_r = {"C:%s@%s:bb%d" % (generic_path(dflt[2]), v[1], v[2])} if (dflt[0] == "const" and dflt[1] == "fn") else self.closure_return_roots(dflt)
+                else:
+                    d_r = self.roots(dflt)
+                if d_r is not None:
+                    return {"or(%s;%s)%s" % ("|".join(sorted(some_r)), "|".join(sorted(d_r)), path_str(path))}
             if re.search(r"option::Option(::<[^>]*>)?::map_or(_else)?$", cs) and len(v[4]) == 3 and v[4][2][0] == "agg" and v[4][2][1] == "closure":
                 # opt.map_or(d, f) / opt.map_or_else(|| d, f)  ==  match opt { Some(x) => f(x), None => d }
                 cf = self.P.fn(v[4][2][2])
